@@ -30,6 +30,14 @@ class Gen:
 
     def arith(self, dst_pool, src_pool):
         r = self.rng
+        if r.random() < 0.04:
+            # a computation whose destination is the zero register (reported by a lint, and must
+            # not leave any claim about x0 behind)
+            self.stats["to_zero"] = self.stats.get("to_zero", 0) + 1
+            self.emit(r.choice([f"add zero, {r.choice(src_pool)}, {r.choice(src_pool)}",
+                                f"addi x0, {r.choice(src_pool)}, {r.choice([1, 5, -3])}",
+                                f"li zero, {r.choice([7, 11])}", "lw x0, 0(sp)",
+                                f"sub x0, {r.choice(src_pool)}, {r.choice(src_pool)}"]))
         d = r.choice(dst_pool)
         k = r.randrange(8)
         if k == 0:
